@@ -49,6 +49,16 @@ template <class CC> static std::string validate(CC& cc, const std::vector<double
     if (why.empty() && (size_t)r != n) why = "filtration range lists " + std::to_string(r) + " of " + std::to_string(n) + " cells";
     for (size_t c = 0; c < n && why.empty(); c++) for (auto b : cc.get_boundary_of_a_cell(c)) if (rank[b] > rank[c]) { why = "face " + std::to_string(b) + " comes after its coface " + std::to_string(c); break; } }
   return why; }
+// values only (usable on the base classes, which have no filtration range): built by hand from sizes, top cells written through the iterator
+template <class BC> static void check_by_hand(BC& bc, const std::vector<double>& in, const std::string& tag) {
+  ++total_cases; size_t n = total();
+  std::vector<size_t> cells; for (size_t c = 0; c < n; c++) { bool all = true; for (unsigned i = 0; i < Dm; i++) all = all && (coord(c, i) % 2 == 1); if (all) cells.push_back(c); }
+  size_t k = 0; for (auto it = bc.top_dimensional_cells_iterator_begin(); it != bc.top_dimensional_cells_iterator_end(); ++it) { if (k < in.size()) bc.get_cell_data(*it) = in[k]; ++k; }
+  if (k != in.size()) { fail(tag + ": the top-cell iterator visits " + std::to_string(k) + " cells, expected " + std::to_string(in.size())); return; }
+  bc.impose_lower_star_filtration();
+  std::vector<double> val(n); for (size_t j = 0; j < cells.size(); j++) val[cells[j]] = in[j];
+  for (size_t c = 0; c < n; c++) { std::vector<size_t> cl; expand(c, true, cl); double want = INF; for (size_t x : cl) want = std::min(want, val[x]);
+    if (bc.get_cell_data(c) != want) { fail(tag + ": cell " + std::to_string(c) + " has value " + std::to_string(bc.get_cell_data(c)) + ", expected " + std::to_string(want)); return; } } }
 template <class CC> static void check(CC& cc, const std::vector<double>& in, bool top, const std::string& tag) {
   ++total_cases; size_t n = total();
   // input cells in the order the constructor reads them = increasing bitmap position
@@ -76,10 +86,12 @@ static void run_shape(std::vector<unsigned> shape, std::vector<bool> mask, bool 
       for (size_t k = 0; k < nin; k++) { in[k] = exhaustive ? alpha[q % 5] : ((nextr() % 4 == 0) ? alpha[nextr() % 5] : (double)(nextr() % 7)); q /= 5; }
       // the constructors take top-cell counts per direction; from-vertices wants vertex counts
       try {
-        if (periodic) { Bitmap_cubical_complex<Bitmap_cubical_complex_periodic_boundary_conditions_base<double>> cc(dims, in, P, (bool)top); check(cc, in, top, tag); }
+        if (periodic) { Bitmap_cubical_complex<Bitmap_cubical_complex_periodic_boundary_conditions_base<double>> cc(dims, in, P, (bool)top); check(cc, in, top, tag);
+          if (top) { Bitmap_cubical_complex_periodic_boundary_conditions_base<double> bc(dims, P); check_by_hand(bc, in, tag + " (empty complex from sizes and directions, filled by hand)"); } }
         else { Bitmap_cubical_complex<Bitmap_cubical_complex_base<double>> cc(dims, in, (bool)top); check(cc, in, top, tag);
           // the same complex through the 4-argument (compatibility) constructor that generic code over both classes uses
-          Bitmap_cubical_complex<Bitmap_cubical_complex_base<double>> c4(dims, in, std::vector<bool>(Dm, false), (bool)top); check(c4, in, top, tag + " (4-argument constructor)"); }
+          Bitmap_cubical_complex<Bitmap_cubical_complex_base<double>> c4(dims, in, std::vector<bool>(Dm, false), (bool)top); check(c4, in, top, tag + " (4-argument constructor)");
+          if (top) { Bitmap_cubical_complex_base<double> bc(dims); check_by_hand(bc, in, tag + " (empty complex from sizes, filled by hand)"); } }
       } catch (std::exception const& e) { ++total_cases; fail(tag + ": exception " + e.what()); } } } }
 int main(int argc, char** argv) {
   signal(SIGSEGV, on_crash); signal(SIGABRT, on_crash); signal(SIGBUS, on_crash); signal(SIGFPE, on_crash);
